@@ -30,6 +30,8 @@ package rib
 
 //@ unit RIB.AddEntry
 //@ requires holdersWF(r) && pendingWF(r) && opWF(op) && ribQuiet(r) && unixTS != nil
+//@ requires[gate-wired] gateInv(r)
+//@ ensures[gate-kept] gateInv(r)
 //@ requires[own-instance] ni == op.GetNetworkInstance()
 //@ ensures[fatal] result2 != nil ==> len(result0) == 0 && len(result1) == 0
 //@ ensures[wf] resultsWF(result0) && resultsWF(result1)
@@ -49,6 +51,8 @@ package rib
 //@   && (istype(op.Entry, *spb.AFTOperation_NextHop) ==> op.GetNextHop() != nil && op.GetNextHop().GetIndex() != 0)
 //@ unit RIB.DeleteEntry
 //@ requires holdersWF(r) && pendingWF(r) && ribQuiet(r) && unixTS != nil && (op != nil ==> opWF(op))
+//@ requires[gate-wired] gateInv(r)
+//@ ensures[gate-kept] gateInv(r)
 //@ ensures[wf] resultsWF(result0) && resultsWF(result1)
 //@ ensures[rib-wf] holdersWF(r) && holdersNonNil(r) && pendingWF(r)
 //@ ensures[one-verdict] result2 == nil ==> len(result0) + len(result1) == 1
@@ -59,6 +63,13 @@ package rib
 // and a well-formed DELETE that the check approved (or that is not checked) is acknowledged, never failed.
 //@ ensures[ok-only-if-approved] len(result0) > 0 && r.niRIB[ni].checkFn != nil ==> approvedBy(old(gateCalls), gateCalls, constants.Delete)
 //@ ensures[approved-means-ok] result2 == nil && opDeletable(op) && (r.niRIB[ni].checkFn == nil || approvedBy(old(gateCalls), gateCalls, constants.Delete)) ==> len(result0) == 1 && len(result1) == 0
+// C03, with the gate dispatched to the real check (canDelete): the verdict of a gated, addressable DELETE is a function of the
+// current tables and counters only - entries always go; a group (next-hop) goes exactly when it is absent or its counter is zero.
+//@ ensures[verdict-entry] result2 == nil && opDeletable(op) && old(r.niRIB[ni].checkFn) != nil && (istype(op.Entry, *spb.AFTOperation_Ipv4) || istype(op.Entry, *spb.AFTOperation_Ipv6) || istype(op.Entry, *spb.AFTOperation_Mpls)) ==> len(result0) == 1 && len(result1) == 0
+//@ ensures[verdict-group] result2 == nil && opDeletable(op) && old(r.niRIB[ni].checkFn) != nil && istype(op.Entry, *spb.AFTOperation_NextHopGroup)
+//@   ==> (len(result0) == 1 <==> (!(op.GetNextHopGroup().GetId() in old(dom(r.niRIB[ni].r.Afts.NextHopGroup))) || old(r.niRIB[ni].refCounts.NextHopGroup[op.GetNextHopGroup().GetId()]) == 0))
+//@ ensures[verdict-next-hop] result2 == nil && opDeletable(op) && old(r.niRIB[ni].checkFn) != nil && istype(op.Entry, *spb.AFTOperation_NextHop)
+//@   ==> (len(result0) == 1 <==> (!(op.GetNextHop().GetIndex() in old(dom(r.niRIB[ni].r.Afts.NextHop))) || old(r.niRIB[ni].refCounts.NextHop[op.GetNextHop().GetIndex()]) == 0))
 //@ assert at "oks = append(oks, &OpResult{" [ack-removed] opRemoved(niR, op) && removed
 //@ assert at "Error: err.Error()," [failed-no-trace] keptAll(niR.r.Afts)
 //@ loop 1 at "range originalNHG.NextHop" invariant holdersWF(r) && registered(r, niR) && opRemoved(niR, op) && removed && originalNHG != nil
@@ -102,6 +113,8 @@ package rib
 
 //@ unit RIB.Flush
 //@ requires holdersWF(r) && pendingWF(r) && ribQuiet(r) && unixTS != nil
+//@ requires[gate-wired] gateInv(r)
+//@ ensures[gate-kept] gateInv(r)
 //@ requires[known] forall i in 0..len(networkInstances) :: networkInstances[i] in dom(r.niRIB)
 //@ requires[distinct] distinctNames(networkInstances)
 //@ ensures[ok] result0 == nil
@@ -575,10 +588,23 @@ package rib
 //@ ensures hookCount == old(hookCount) + 1
 //@ assigns hookCount
 //@ fnfield RIBHolder.checkFn
-//@ why the holder's check function is the closure built by NewRIBHolder around RIB.checkFn (canResolve / canDelete); it reads the RIB and modifies nothing
-//@ ensures[gate-event] gateCalls == old(gateCalls) + 1 && gateOp == arg0 && gateCand == arg1
-//@ ensures[gate-verdict] (gateOK <==> result0) && (gateFatal <==> result1 != nil)
-//@ assigns gateCalls, gateOp, gateCand, gateOK, gateFatal
+//@ why the holder's check function is the closure built by NewRIBHolder around RIB.checkFn (canResolve / canDelete): proved where it is stored (NewRIBHolder), dispatched to that code where it is called; the ghost updates record each call as an event
+//@ closure NewRIBHolder$1
+//@ ghost gateCalls = gateCalls + 1
+//@ ghost gateOp = arg0
+//@ ghost gateCand = arg1
+//@ ghost gateOK = result0
+//@ ghost gateFatal = result1 != nil
+//@ fnfield ribHolderCheckFn.fn
+//@ why the option's function is the method value r.checkFn of the RIB that creates the instance (New, AddNetworkInstance): proved where it is stored, used where it is called
+//@ closure RIB.checkFn$bound
+//@ inline NewRIBHolder$1
+// gateRIB(h): the RIB whose checkFn method the gate of instance h calls; gateWired(h): the gate of h is the closure NewRIBHolder built,
+// over h's own name and the method value of a RIB; gateReady(h): that RIB is well-formed and has h registered under its name.
+//@ pred gateRIB(h *RIBHolder) = captured(captured(h.checkFn, "NewRIBHolder$1", "fn").fn, "RIB.checkFn$bound", "recv")
+//@ pred gateWired(h *RIBHolder) = h.checkFn != nil ==> closureof(h.checkFn, "NewRIBHolder$1") && captured(h.checkFn, "NewRIBHolder$1", "name") == h.name
+//@   && captured(h.checkFn, "NewRIBHolder$1", "fn") != nil && captured(h.checkFn, "NewRIBHolder$1", "fn").fn != nil && closureof(captured(h.checkFn, "NewRIBHolder$1", "fn").fn, "RIB.checkFn$bound")
+//@ pred gateReady(h *RIBHolder) = gateWired(h) && (h.checkFn != nil ==> holdersWF(gateRIB(h)) && registered(gateRIB(h), h) && ribQuiet(gateRIB(h)))
 //@ fnfield unixTS
 //@ why the clock returns an arbitrary int64
 
@@ -608,11 +634,13 @@ package rib
 //@   && fresh(result0.Afts.NextHopGroup[a.NextHopGroup[0].GetId()]) && fromProto_nhg(result0.Afts.NextHopGroup[a.NextHopGroup[0].GetId()], a.NextHopGroup[0]) && keyed_nhg(result0.Afts.NextHopGroup[a.NextHopGroup[0].GetId()], a.NextHopGroup[0].GetId()) && a.NextHopGroup[0].GetNextHopGroup() != nil && groupWF(result0.Afts.NextHopGroup[a.NextHopGroup[0].GetId()])
 //@ ensures[nh] result1 == nil && len(a.NextHop) == 1 && a.NextHop[0] != nil && len(a.Ipv4Entry) == 0 && len(a.Ipv6Entry) == 0 && len(a.LabelEntry) == 0 && len(a.NextHopGroup) == 0 ==> candOnly_nh(result0.Afts, a.NextHop[0].GetIndex())
 //@   && fresh(result0.Afts.NextHop[a.NextHop[0].GetIndex()]) && fromProto_nh(result0.Afts.NextHop[a.NextHop[0].GetIndex()], a.NextHop[0]) && keyed_nh(result0.Afts.NextHop[a.NextHop[0].GetIndex()], a.NextHop[0].GetIndex())
+//@ ensures[cand-wf] result1 == nil && len(a.MacEntry) == 0 && len(a.PolicyForwardingEntry) == 0 ==> candWF(result0.Afts)
 //@ assigns nothing
 //@ props C01 C02 C07
 
 //@ unit RIBHolder.AddIPv4
 //@ requires holderWF(r) && unixTS != nil
+//@ requires[gate-wired] gateReady(r)
 //@ ensures[nil] e == nil ==> !result0 && result2 != nil
 //@ ensures[err-not-installed] result2 != nil ==> !result0
 //@ ensures[no-trace] !result0 ==> kept_v4(r.r.Afts) && hookCount == old(hookCount)
@@ -622,6 +650,7 @@ package rib
 //@ ensures[explicit-replace] explicitReplace && e != nil && !(e.GetPrefix() in old(dom(r.r.Afts.Ipv4Entry))) ==> !result0 && result2 != nil
 //@ ensures[hook] result0 ==> hookCount == old(hookCount) + ite(old(r.postChangeHook) != nil, 1, 0)
 //@ ensures[installed-only-if-approved] result0 && r.checkFn != nil ==> approvedBy(old(gateCalls), gateCalls, constants.Add)
+//@ ensures[installed-only-if-resolvable] result0 && r.checkFn != nil && r.name != "" ==> entryResolvable(gateRIB(r), r, r.r.Afts.Ipv4Entry[e.GetPrefix()].GetNextHopGroupNetworkInstance(), r.r.Afts.Ipv4Entry[e.GetPrefix()].GetNextHopGroup())
 //@ ensures[held-only-if-refused] !result0 && result2 == nil ==> r.checkFn != nil && gateCalls == old(gateCalls) + 1 && gateOp == constants.Add && !gateOK && !gateFatal
 //@ ensures[ungated] r.checkFn == nil ==> gateCalls == old(gateCalls)
 //@ ensures[one-gate-call] gateCalls <= old(gateCalls) + 1
@@ -635,6 +664,7 @@ package rib
 
 //@ unit RIBHolder.AddIPv6
 //@ requires holderWF(r) && unixTS != nil
+//@ requires[gate-wired] gateReady(r)
 //@ ensures[nil] e == nil ==> !result0 && result2 != nil
 //@ ensures[err-not-installed] result2 != nil ==> !result0
 //@ ensures[no-trace] !result0 ==> kept_v6(r.r.Afts) && hookCount == old(hookCount)
@@ -644,6 +674,7 @@ package rib
 //@ ensures[explicit-replace] explicitReplace && e != nil && !(e.GetPrefix() in old(dom(r.r.Afts.Ipv6Entry))) ==> !result0 && result2 != nil
 //@ ensures[hook] result0 ==> hookCount == old(hookCount) + ite(old(r.postChangeHook) != nil, 1, 0)
 //@ ensures[installed-only-if-approved] result0 && r.checkFn != nil ==> approvedBy(old(gateCalls), gateCalls, constants.Add)
+//@ ensures[installed-only-if-resolvable] result0 && r.checkFn != nil && r.name != "" ==> entryResolvable(gateRIB(r), r, r.r.Afts.Ipv6Entry[e.GetPrefix()].GetNextHopGroupNetworkInstance(), r.r.Afts.Ipv6Entry[e.GetPrefix()].GetNextHopGroup())
 //@ ensures[held-only-if-refused] !result0 && result2 == nil ==> r.checkFn != nil && gateCalls == old(gateCalls) + 1 && gateOp == constants.Add && !gateOK && !gateFatal
 //@ ensures[ungated] r.checkFn == nil ==> gateCalls == old(gateCalls)
 //@ ensures[one-gate-call] gateCalls <= old(gateCalls) + 1
@@ -657,6 +688,7 @@ package rib
 
 //@ unit RIBHolder.AddMPLS
 //@ requires holderWF(r) && unixTS != nil
+//@ requires[gate-wired] gateReady(r)
 //@ requires[wire-valid] e != nil ==> oneofOK(e.Label)
 //@ ensures[nil] e == nil ==> !result0 && result2 != nil
 //@ ensures[err-not-installed] result2 != nil ==> !result0
@@ -667,6 +699,7 @@ package rib
 //@ ensures[explicit-replace] explicitReplace && e != nil && !(boxed(aft.UnionUint32, e.GetLabelUint64()) in old(dom(r.r.Afts.LabelEntry))) ==> !result0 && result2 != nil
 //@ ensures[hook] result0 ==> hookCount == old(hookCount) + ite(old(r.postChangeHook) != nil, 1, 0)
 //@ ensures[installed-only-if-approved] result0 && r.checkFn != nil ==> approvedBy(old(gateCalls), gateCalls, constants.Add)
+//@ ensures[installed-only-if-resolvable] result0 && r.checkFn != nil && r.name != "" ==> entryResolvable(gateRIB(r), r, r.r.Afts.LabelEntry[boxed(aft.UnionUint32, e.GetLabelUint64())].GetNextHopGroupNetworkInstance(), r.r.Afts.LabelEntry[boxed(aft.UnionUint32, e.GetLabelUint64())].GetNextHopGroup())
 //@ ensures[held-only-if-refused] !result0 && result2 == nil ==> r.checkFn != nil && gateCalls == old(gateCalls) + 1 && gateOp == constants.Add && !gateOK && !gateFatal
 //@ ensures[ungated] r.checkFn == nil ==> gateCalls == old(gateCalls)
 //@ ensures[one-gate-call] gateCalls <= old(gateCalls) + 1
@@ -680,6 +713,7 @@ package rib
 
 //@ unit RIBHolder.AddNextHopGroup
 //@ requires holderWF(r) && unixTS != nil
+//@ requires[gate-wired] gateReady(r)
 //@ ensures[nil] e == nil ==> !result0 && result2 != nil
 //@ ensures[err-not-installed] result2 != nil ==> !result0
 //@ ensures[no-trace] !result0 ==> kept_nhg(r.r.Afts) && hookCount == old(hookCount)
@@ -689,6 +723,7 @@ package rib
 //@ ensures[explicit-replace] explicitReplace && e != nil && !(e.GetId() in old(dom(r.r.Afts.NextHopGroup))) ==> !result0 && result2 != nil
 //@ ensures[hook] result0 ==> hookCount == old(hookCount) + ite(old(r.postChangeHook) != nil, 1, 0)
 //@ ensures[installed-only-if-approved] result0 && r.checkFn != nil ==> approvedBy(old(gateCalls), gateCalls, constants.Add)
+//@ ensures[installed-only-if-resolvable] result0 && r.checkFn != nil && r.name != "" ==> groupResolvable(r, r.r.Afts.NextHopGroup[e.GetId()])
 //@ ensures[held-only-if-refused] !result0 && result2 == nil ==> r.checkFn != nil && gateCalls == old(gateCalls) + 1 && gateOp == constants.Add && !gateOK && !gateFatal
 //@ ensures[ungated] r.checkFn == nil ==> gateCalls == old(gateCalls)
 //@ ensures[one-gate-call] gateCalls <= old(gateCalls) + 1
@@ -698,11 +733,14 @@ package rib
 //@ loop 1 invariant e != nil && holderWF(r) && e.GetId() in dom(r.r.Afts.NextHopGroup) && r.r.Afts.NextHopGroup[e.GetId()] != nil && fresh(r.r.Afts.NextHopGroup[e.GetId()]) && othersKept_nhg(r.r.Afts, e.GetId())
 //@ loop 1 invariant e.GetNextHopGroup() != nil && fromProto_nhg(r.r.Afts.NextHopGroup[e.GetId()], e) && candOnly_nhg(nr.Afts, e.GetId()) && nr != nil && nr.Afts != nil && r.postChangeHook != nil
 //@ loop 1 invariant groupWF(nr.Afts.NextHopGroup[e.GetId()])
+//@ loop 1 invariant r.checkFn != nil && r.name != "" ==> groupResolvable(r, r.r.Afts.NextHopGroup[e.GetId()])
+//@ assert at "r.doAddNHG(" [lemma-candidate-resolvable] r.checkFn != nil && r.name != "" ==> groupResolvable(r, nr.Afts.NextHopGroup[e.GetId()])
 //@ assigns r.r.Afts.NextHopGroup, contents(r.r.Afts.NextHopGroup), hookCount, gateCalls, gateOp, gateCand, gateOK, gateFatal
 //@ props C01 C02 C16 C12:safety C12:ensures#nil C12:ensures#err-not-installed C12:ensures#no-trace
 
 //@ unit RIBHolder.AddNextHop
 //@ requires holderWF(r) && unixTS != nil
+//@ requires[gate-wired] gateReady(r)
 //@ ensures[nil] e == nil ==> !result0 && result2 != nil
 //@ ensures[err-not-installed] result2 != nil ==> !result0
 //@ ensures[no-trace] !result0 ==> kept_nh(r.r.Afts) && hookCount == old(hookCount)
@@ -725,6 +763,7 @@ package rib
 
 //@ unit RIBHolder.DeleteIPv4
 //@ requires holderWF(r) && unixTS != nil
+//@ requires[gate-wired] gateReady(r)
 //@ ensures[nil] e == nil ==> !result0 && result2 != nil
 //@ ensures[err-not-removed] result2 != nil ==> !result0
 //@ ensures[no-trace] !result0 ==> kept_v4(r.r.Afts) && hookCount == old(hookCount)
@@ -734,6 +773,7 @@ package rib
 //@ ensures[removed-only-if-approved] result0 && r.checkFn != nil ==> approvedBy(old(gateCalls), gateCalls, constants.Delete)
 //@ ensures[kept-only-if-refused] !result0 && result2 == nil ==> r.checkFn != nil && gateCalls == old(gateCalls) + 1 && gateOp == constants.Delete && !gateOK && !gateFatal
 //@ ensures[approved-means-removed] e != nil && (r.checkFn == nil || approvedBy(old(gateCalls), gateCalls, constants.Delete)) ==> result0 && result2 == nil
+//@ ensures[verdict] e != nil && r.checkFn != nil && r.name != "" ==> result0 && result2 == nil
 //@ ensures[ungated] r.checkFn == nil ==> gateCalls == old(gateCalls)
 //@ ensures[one-gate-call] gateCalls <= old(gateCalls) + 1
 //@ assert at "r.doDeleteIPv4(" [gate-saw-the-key] r.checkFn != nil ==> gateCalls == old(gateCalls) + 1 && gateOp == constants.Delete && gateCand == rr && candOnly_v4(rr.Afts, e.GetPrefix())
@@ -743,6 +783,7 @@ package rib
 
 //@ unit RIBHolder.DeleteIPv6
 //@ requires holderWF(r) && unixTS != nil
+//@ requires[gate-wired] gateReady(r)
 //@ ensures[nil] e == nil ==> !result0 && result2 != nil
 //@ ensures[err-not-removed] result2 != nil ==> !result0
 //@ ensures[no-trace] !result0 ==> kept_v6(r.r.Afts) && hookCount == old(hookCount)
@@ -752,6 +793,7 @@ package rib
 //@ ensures[removed-only-if-approved] result0 && r.checkFn != nil ==> approvedBy(old(gateCalls), gateCalls, constants.Delete)
 //@ ensures[kept-only-if-refused] !result0 && result2 == nil ==> r.checkFn != nil && gateCalls == old(gateCalls) + 1 && gateOp == constants.Delete && !gateOK && !gateFatal
 //@ ensures[approved-means-removed] e != nil && (r.checkFn == nil || approvedBy(old(gateCalls), gateCalls, constants.Delete)) ==> result0 && result2 == nil
+//@ ensures[verdict] e != nil && r.checkFn != nil && r.name != "" ==> result0 && result2 == nil
 //@ ensures[ungated] r.checkFn == nil ==> gateCalls == old(gateCalls)
 //@ ensures[one-gate-call] gateCalls <= old(gateCalls) + 1
 //@ assert at "r.doDeleteIPv6(" [gate-saw-the-key] r.checkFn != nil ==> gateCalls == old(gateCalls) + 1 && gateOp == constants.Delete && gateCand == rr && candOnly_v6(rr.Afts, e.GetPrefix())
@@ -761,6 +803,7 @@ package rib
 
 //@ unit RIBHolder.DeleteMPLS
 //@ requires holderWF(r) && unixTS != nil
+//@ requires[gate-wired] gateReady(r)
 //@ requires[wire-valid] e != nil ==> oneofOK(e.Label)
 //@ ensures[nil] e == nil ==> !result0 && result2 != nil
 //@ ensures[err-not-removed] result2 != nil ==> !result0
@@ -772,6 +815,7 @@ package rib
 //@ ensures[removed-only-if-approved] result0 && r.checkFn != nil ==> approvedBy(old(gateCalls), gateCalls, constants.Delete)
 //@ ensures[kept-only-if-refused] !result0 && result2 == nil ==> r.checkFn != nil && gateCalls == old(gateCalls) + 1 && gateOp == constants.Delete && !gateOK && !gateFatal
 //@ ensures[approved-means-removed] e != nil && istype(e.Label, *aftpb.Afts_LabelEntryKey_LabelUint64) && e.GetLabelUint64() < 4294967296 && (r.checkFn == nil || approvedBy(old(gateCalls), gateCalls, constants.Delete)) ==> result0 && result2 == nil
+//@ ensures[verdict] e != nil && istype(e.Label, *aftpb.Afts_LabelEntryKey_LabelUint64) && e.GetLabelUint64() < 4294967296 && r.checkFn != nil && r.name != "" ==> result0 && result2 == nil
 //@ ensures[ungated] r.checkFn == nil ==> gateCalls == old(gateCalls)
 //@ ensures[one-gate-call] gateCalls <= old(gateCalls) + 1
 //@ assert at "r.doDeleteMPLS(" [gate-saw-the-key] r.checkFn != nil ==> gateCalls == old(gateCalls) + 1 && gateOp == constants.Delete && gateCand == rr && candOnly_mpls(rr.Afts, boxed(aft.UnionUint32, wrap32(e.GetLabelUint64())))
@@ -781,6 +825,7 @@ package rib
 
 //@ unit RIBHolder.DeleteNextHopGroup
 //@ requires holderWF(r) && unixTS != nil
+//@ requires[gate-wired] gateReady(r)
 //@ ensures[nil] e == nil ==> !result0 && result2 != nil
 //@ ensures[err-not-removed] result2 != nil ==> !result0
 //@ ensures[no-trace] !result0 ==> kept_nhg(r.r.Afts) && hookCount == old(hookCount)
@@ -790,6 +835,7 @@ package rib
 //@ ensures[removed-only-if-approved] result0 && r.checkFn != nil ==> approvedBy(old(gateCalls), gateCalls, constants.Delete)
 //@ ensures[kept-only-if-refused] !result0 && result2 == nil ==> r.checkFn != nil && gateCalls == old(gateCalls) + 1 && gateOp == constants.Delete && !gateOK && !gateFatal
 //@ ensures[approved-means-removed] e != nil && e.GetId() != 0 && (r.checkFn == nil || approvedBy(old(gateCalls), gateCalls, constants.Delete)) ==> result0 && result2 == nil
+//@ ensures[verdict] e != nil && e.GetId() != 0 && r.checkFn != nil && r.name != "" ==> result2 == nil && (result0 <==> (!(e.GetId() in old(dom(r.r.Afts.NextHopGroup))) || old(r.refCounts.NextHopGroup[e.GetId()]) == 0))
 //@ ensures[ungated] r.checkFn == nil ==> gateCalls == old(gateCalls)
 //@ ensures[one-gate-call] gateCalls <= old(gateCalls) + 1
 //@ assert at "r.doDeleteNHG(" [gate-saw-the-key] r.checkFn != nil ==> gateCalls == old(gateCalls) + 1 && gateOp == constants.Delete && gateCand == rr && candOnly_nhg(rr.Afts, e.GetId())
@@ -799,6 +845,7 @@ package rib
 
 //@ unit RIBHolder.DeleteNextHop
 //@ requires holderWF(r) && unixTS != nil
+//@ requires[gate-wired] gateReady(r)
 //@ ensures[nil] e == nil ==> !result0 && result2 != nil
 //@ ensures[err-not-removed] result2 != nil ==> !result0
 //@ ensures[no-trace] !result0 ==> kept_nh(r.r.Afts) && hookCount == old(hookCount)
@@ -808,6 +855,7 @@ package rib
 //@ ensures[removed-only-if-approved] result0 && r.checkFn != nil ==> approvedBy(old(gateCalls), gateCalls, constants.Delete)
 //@ ensures[kept-only-if-refused] !result0 && result2 == nil ==> r.checkFn != nil && gateCalls == old(gateCalls) + 1 && gateOp == constants.Delete && !gateOK && !gateFatal
 //@ ensures[approved-means-removed] e != nil && e.GetIndex() != 0 && (r.checkFn == nil || approvedBy(old(gateCalls), gateCalls, constants.Delete)) ==> result0 && result2 == nil
+//@ ensures[verdict] e != nil && e.GetIndex() != 0 && r.checkFn != nil && r.name != "" ==> result2 == nil && (result0 <==> (!(e.GetIndex() in old(dom(r.r.Afts.NextHop))) || old(r.refCounts.NextHop[e.GetIndex()]) == 0))
 //@ ensures[ungated] r.checkFn == nil ==> gateCalls == old(gateCalls)
 //@ ensures[one-gate-call] gateCalls <= old(gateCalls) + 1
 //@ assert at "r.doDeleteNH(" [gate-saw-the-key] r.checkFn != nil ==> gateCalls == old(gateCalls) + 1 && gateOp == constants.Delete && gateCand == rr && candOnly_nh(rr.Afts, e.GetIndex())
@@ -923,6 +971,7 @@ package rib
 //@ ensures[nhg] forall k: uint64 :: candOnly_nhg(candidate.Afts, k) && homeNI(r, netInst) in dom(r.niRIB) && k != 0
 //@   && dom(candidate.Afts.NextHopGroup[k].NextHop) != emptyset(uint64) && !(0 in dom(candidate.Afts.NextHopGroup[k].NextHop))
 //@   ==> result1 == nil && (result0 <==> groupResolvable(r.niRIB[homeNI(r, netInst)], candidate.Afts.NextHopGroup[k]))
+//@ ensures[nhg-zero-member] forall k: uint64 :: candOnly_nhg(candidate.Afts, k) && homeNI(r, netInst) in dom(r.niRIB) && 0 in dom(candidate.Afts.NextHopGroup[k].NextHop) ==> !result0
 //@ ensures[nhg-fatal] forall k: uint64 :: candOnly_nhg(candidate.Afts, k) && homeNI(r, netInst) in dom(r.niRIB)
 //@   && (k == 0 || dom(candidate.Afts.NextHopGroup[k].NextHop) == emptyset(uint64)) ==> result1 != nil && !result0
 //@ ensures[v4] forall k: string :: candOnly_v4(candidate.Afts, k) && homeNI(r, netInst) in dom(r.niRIB) && candidate.Afts.Ipv4Entry[k].GetNextHopGroup() != 0
@@ -962,6 +1011,7 @@ package rib
 //@ props C03 C12:safety C12:ensures#unknown-ni
 
 //@ unit RIB.checkFn
+//@ inline
 //@ requires holdersWF(r) && candidate != nil && candidate.Afts != nil && candWF(candidate.Afts)
 //@ ensures[unknown-op] t != constants.Add && t != constants.Delete ==> result1 != nil && !result0
 //@ assigns nothing
@@ -1053,6 +1103,9 @@ package rib
 //@ pred newIDsNotHeld(r *RIB, rs []*OpResult, from Int) = forall i in from..len(rs) :: !(rs[i].ID in dom(r.pendingEntries))
 // opInstalled: the entry named by op is in the tables of h with the key and reference fields of op's payload.
 //@ pred opInstalled(h *RIBHolder, op *spb.AFTOperation) = (istype(op.Entry, *spb.AFTOperation_Ipv4) ==> op.GetIpv4().GetPrefix() in dom(h.r.Afts.Ipv4Entry) && fromProto_v4(h.r.Afts.Ipv4Entry[op.GetIpv4().GetPrefix()], op.GetIpv4())) && (istype(op.Entry, *spb.AFTOperation_Ipv6) ==> op.GetIpv6().GetPrefix() in dom(h.r.Afts.Ipv6Entry) && fromProto_v6(h.r.Afts.Ipv6Entry[op.GetIpv6().GetPrefix()], op.GetIpv6())) && (istype(op.Entry, *spb.AFTOperation_Mpls) ==> boxed(aft.UnionUint32, op.GetMpls().GetLabelUint64()) in dom(h.r.Afts.LabelEntry) && fromProto_mpls(h.r.Afts.LabelEntry[boxed(aft.UnionUint32, op.GetMpls().GetLabelUint64())], op.GetMpls())) && (istype(op.Entry, *spb.AFTOperation_NextHopGroup) ==> op.GetNextHopGroup().GetId() in dom(h.r.Afts.NextHopGroup) && fromProto_nhg(h.r.Afts.NextHopGroup[op.GetNextHopGroup().GetId()], op.GetNextHopGroup())) && (istype(op.Entry, *spb.AFTOperation_NextHop) ==> op.GetNextHop().GetIndex() in dom(h.r.Afts.NextHop) && fromProto_nh(h.r.Afts.NextHop[op.GetNextHop().GetIndex()], op.GetNextHop()))
+// opResolved (C02): what the installed entry named by op references is installed - a top-level entry's group in the
+// instance it names or else its own, a group's next-hops in its own instance (backup groups are not checked).
+//@ pred opResolved(r *RIB, h *RIBHolder, op *spb.AFTOperation) = (istype(op.Entry, *spb.AFTOperation_Ipv4) ==> entryResolvable(r, h, h.r.Afts.Ipv4Entry[op.GetIpv4().GetPrefix()].GetNextHopGroupNetworkInstance(), h.r.Afts.Ipv4Entry[op.GetIpv4().GetPrefix()].GetNextHopGroup())) && (istype(op.Entry, *spb.AFTOperation_Ipv6) ==> entryResolvable(r, h, h.r.Afts.Ipv6Entry[op.GetIpv6().GetPrefix()].GetNextHopGroupNetworkInstance(), h.r.Afts.Ipv6Entry[op.GetIpv6().GetPrefix()].GetNextHopGroup())) && (istype(op.Entry, *spb.AFTOperation_Mpls) ==> entryResolvable(r, h, h.r.Afts.LabelEntry[boxed(aft.UnionUint32, op.GetMpls().GetLabelUint64())].GetNextHopGroupNetworkInstance(), h.r.Afts.LabelEntry[boxed(aft.UnionUint32, op.GetMpls().GetLabelUint64())].GetNextHopGroup())) && (istype(op.Entry, *spb.AFTOperation_NextHopGroup) ==> groupResolvable(h, h.r.Afts.NextHopGroup[op.GetNextHopGroup().GetId()]))
 // opRemoved: the key named by op is absent from the tables of h.
 //@ pred opRemoved(h *RIBHolder, op *spb.AFTOperation) = (istype(op.Entry, *spb.AFTOperation_Ipv4) ==> !(op.GetIpv4().GetPrefix() in dom(h.r.Afts.Ipv4Entry))) && (istype(op.Entry, *spb.AFTOperation_Ipv6) ==> !(op.GetIpv6().GetPrefix() in dom(h.r.Afts.Ipv6Entry))) && (istype(op.Entry, *spb.AFTOperation_Mpls) ==> op.GetMpls().GetLabelUint64() < 4294967296 && !(boxed(aft.UnionUint32, op.GetMpls().GetLabelUint64()) in dom(h.r.Afts.LabelEntry))) && (istype(op.Entry, *spb.AFTOperation_NextHopGroup) ==> !(op.GetNextHopGroup().GetId() in dom(h.r.Afts.NextHopGroup))) && (istype(op.Entry, *spb.AFTOperation_NextHop) ==> !(op.GetNextHop().GetIndex() in dom(h.r.Afts.NextHop)))
 //@ pred keptAll(A *aft.Afts) = kept_v4(A) && kept_v6(A) && kept_mpls(A) && kept_nhg(A) && kept_nh(A)
@@ -1064,6 +1117,8 @@ package rib
 
 //@ unit RIB.addEntryInternal
 //@ requires holdersWF(r) && pendingWF(r) && opWF(op) && ribQuiet(r) && unixTS != nil
+//@ requires[gate-wired] gateInv(r)
+//@ ensures[gate-kept] gateInv(r)
 //@ requires[own-instance] ni == op.GetNetworkInstance()
 //@ requires oks != nil && fails != nil && installStack != nil && resultsWF(*oks) && resultsWF(*fails) && stackNotHeld(r, installStack)
 //@ ensures[prefix] prefixKept(*oks, old(*oks)) && prefixKept(*fails, old(*fails))
@@ -1085,6 +1140,7 @@ package rib
 //@    (exists i in old(len(*oks))..len(*oks) :: (*oks)[i].ID == op.GetId()) || (exists i in old(len(*fails))..len(*fails) :: (*fails)[i].ID == op.GetId())
 //@    || op.GetId() in dom(r.pendingEntries)
 //@ assert at "*oks = append(*oks" [ack-installed] opInstalled(niR, op) && installed
+//@ check at "*oks = append(*oks" [ack-resolved] niR.checkFn != nil ==> opResolved(r, niR, op)
 //@ assert at "*oks = append(*oks" [ack-approved] niR.checkFn != nil ==> gateOp == constants.Add && gateOK && !gateFatal
 //@ assert at "Error: opErr.Error()" [failed-no-trace] keptAll(niR.r.Afts)
 //@ assert at "has unresolved dependencies" [failed-no-trace] keptAll(niR.r.Afts) && r.disableForwardReferences
@@ -1109,7 +1165,7 @@ package rib
 //@ assert at "if err != nil {" [lemma-old-stacked] r.disableForwardReferences || ((forall i in old(len(*oks))..len(oksBefore) :: installStack[(*oks)[i].ID]) && (forall i in old(len(*fails))..len(failsBefore) :: installStack[(*fails)[i].ID]))
 //@ assert at "if err != nil {" [lemma-stacked] r.disableForwardReferences || (newIDsStacked(*oks, old(len(*oks)), installStack) && newIDsStacked(*fails, old(len(*fails)), installStack))
 //@ loop 1 at "range r.getPending()" invariant prefixKept(*oks, old(*oks)) && prefixKept(*fails, old(*fails))
-//@ loop 1 invariant resultsWF(*oks) && resultsWF(*fails) && holdersWF(r) && pendingWF(r) && stackNotHeld(r, installStack) && ribQuiet(r)
+//@ loop 1 invariant resultsWF(*oks) && resultsWF(*fails) && holdersWF(r) && pendingWF(r) && stackNotHeld(r, installStack) && ribQuiet(r) && gateInv(r)
 //@ loop 1 invariant newIDsKnown(*oks, old(len(*oks)), op.GetId(), old(dom(r.pendingEntries))) && newIDsKnown(*fails, old(len(*fails)), op.GetId(), old(dom(r.pendingEntries)))
 //@ loop 1 invariant r.disableForwardReferences || (newIDsStacked(*oks, old(len(*oks)), installStack) && newIDsStacked(*fails, old(len(*fails)), installStack))
 //@ loop 1 invariant (forall k in old(dom(installStack)) :: old(installStack[k]) ==> installStack[k]) && installStack[op.GetId()]
@@ -1126,15 +1182,6 @@ package rib
 // hookInv: every network instance notifies through the hook last given to SetPostChangeHook,
 // regardless of when the instance was created.
 //@ pred hookInv(r *RIB) = forall k in dom(r.niRIB) :: r.niRIB[k].postChangeHook == r.postChangeHook
-
-//@ fnfield ribHolderCheckFn.fn
-//@ why the check function handed to NewRIBHolder is RIB.checkFn of the owning RIB (New, AddNetworkInstance); it reads the RIB and modifies nothing
-//@ assigns nothing
-
-//@ unit NewRIBHolder$1
-//@ requires fn != nil && fn.fn != nil
-//@ assigns nothing
-//@ props C02 C12:safety
 
 //@ unit hasCheckFn
 //@ ensures[found] result0 != nil ==> exists i in 0..len(opts) :: istype(opts[i], *ribHolderCheckFn) && payload(opts[i]) == result0
@@ -1169,9 +1216,12 @@ package rib
 // (C02: an instance created later, e.g. a VRF, is gated exactly like the default one). Established by New and
 // AddNetworkInstance; no other unit assigns these fields (their frames prove it).
 //@ pred gateInv(r *RIB) = forall k in dom(r.niRIB) :: (r.niRIB[k].checkFn != nil <==> r.ribCheck) && (r.niRIB[k].disableForwardRef <==> r.disableForwardReferences)
+//@   && gateWired(r.niRIB[k]) && (r.niRIB[k].checkFn != nil ==> gateRIB(r.niRIB[k]) == r)
 //@ unit NewRIBHolder
 //@ requires[opts-wf] forall i in 0..len(opts) :: istype(opts[i], *ribHolderCheckFn) ==> payload(opts[i]) != 0
 //@ ensures[gate-check] result0.checkFn != nil <==> (exists i in 0..len(opts) :: istype(opts[i], *ribHolderCheckFn))
+//@ ensures[gate-closure] result0.checkFn != nil ==> closureof(result0.checkFn, "NewRIBHolder$1") && captured(result0.checkFn, "NewRIBHolder$1", "name") == name
+//@   && (exists i in 0..len(opts) :: istype(opts[i], *ribHolderCheckFn) && payload(opts[i]) == captured(result0.checkFn, "NewRIBHolder$1", "fn"))
 //@ ensures[gate-forward-refs] result0.disableForwardRef <==> (exists i in 0..len(opts) :: istype(opts[i], *disableForwardRef))
 //@ ensures[fresh] result0 != nil && fresh(result0) && holderWF(result0) && result0.name == name && result0.postChangeHook == nil
 //@ ensures[empty] emptied(result0.r.Afts) && fresh(result0.r) && fresh(result0.r.Afts) && fresh(result0.refCounts)
